@@ -18,7 +18,9 @@ RULE = (
     "object x {raise, short write + raise, silent short write + crash}, then reading what reached the file object; (wcont) "
     "EVERY frame whose write fails cleanly (the length-prefix call raises, nothing reaches the file) while the application "
     "carries on writing: the reader must yield an unmodified prefix of the records whose write() returned, at least up to the "
-    "first failure. "
+    "first failure; and EVERY frame whose body write fails or is short after its length prefix was written while the "
+    "application carries on (the rest of the stream is then mis-framed): the reader may only yield the records written before "
+    "the damage, never anything that was not written. "
     "Oracle: the observations of the yielded records equal those of the written records whose frames are completely "
     "present (frame ends computed by the independent reference codec; for gzip from the independently decompressed prefix); "
     "iteration then ends or raises any exception; at an exact frame boundary of the raw stream it must end without raising. "
@@ -26,7 +28,7 @@ RULE = (
     "holds at least one complete record frame or the cut falls inside a frame."
 )
 ASSUMPTIONS = [
-    "crash semantics for short writes and failed body writes: the writer is not used again (continuing after a partially written frame mis-frames the stream, which no reader can repair); continuing is explored only for frames whose write fails before any byte reaches the file",
+    "for short / silently short writes at every call index the writer is not used again (crash); continuing after a failure is explored for frames that fail before any byte reaches the file (stream stays well framed) and for frames whose body fails after the length prefix (stream mis-framed: only 'nothing that was not written, nothing before the damage skipped' is demanded)",
     "the gzip form is built by the harness from the writer's frames with a sync flush after every frame (what PathTemplateWriter does via fp.flush()); whole-file gzip written by the library is C11/C17's subject",
     "empty and shorter-than-header prefixes may raise; they must yield no records",
 ]
@@ -334,8 +336,11 @@ def run_continue_after_fault(ctx, case, records, written, data, tee, frames):
     if len(length_calls) != len(frames):
         ctx.event("wcont_not_applicable_(writer_does_not_emit_the_length_prefix_as_its_own_write)")
         return
-    for idx in length_calls[1:]:  # the header frame is written by the first write; failing it is the crash case
-        ff = faultio.FaultFile(idx, "raise")
+    body_calls = [i + 1 for i in length_calls[1:] if i + 1 < len(tee.calls)]
+    plan = [(i, "raise") for i in length_calls[1:]] + [(i, "raise") for i in body_calls] + [(i, "short") for i in body_calls]
+    for idx, fmode in plan:  # the header frame is written by the first write; failing it is the crash case
+        misframed = idx in body_calls
+        ff = faultio.FaultFile(idx, fmode)
         w = RecordStreamWriter(ff)
         ok = []
         for r in records:
@@ -355,18 +360,24 @@ def run_continue_after_fault(ctx, case, records, written, data, tee, frames):
             continue
         ondisk = ff.getvalue()
         fr, e2 = refcodec.split_frames(ondisk)
-        if e2 != len(ondisk):
-            ctx.event("wcont_stream_not_well_framed_(skipped)")
-            continue
-        complete = [w_ for w_, good in zip(written, ok) if good]
         first_fail = ok.index(False) if False in ok else len(ok)
+        if misframed:
+            # the length prefix of the failed frame is on disk but (part of) its body is not: everything after it is
+            # mis-framed.  Whatever the reader does then, it may only yield the records written before the damage.
+            ctx.event("wcont_misframed")
+            complete = [w_ for w_, good in zip(written[:first_fail], ok[:first_fail]) if good]
+        else:
+            if e2 != len(ondisk):
+                ctx.event("wcont_stream_not_well_framed_(skipped)")
+                continue
+            complete = [w_ for w_, good in zip(written, ok) if good]
         must_have = sum(1 for good in ok[:first_fail] if good)
         for rsub in ("buffered", "reader"):
             yielded, exc = read_all(make_reader_factory(rsub, ondisk))
             try:
                 got = [observe.normalise(observe.obs(r)) for r in yielded]
             except Exception as e:  # noqa: BLE001
-                ctx.violation(None, "continue after a failed frame write: a yielded record cannot be observed", detail={"call": idx, "error": repr(e)[:200]})
+                ctx.violation(None, "continue after a failed frame write: the reader yields something that is not a record", detail={"call": idx, "mode": fmode, "yielded_types": [type(r).__name__ for r in yielded][:8], "error": repr(e)[:200]})
                 continue
             exp = [_EXPECT.get(id(w_), w_) for w_ in complete]
             detail = {"call": idx, "records_attempted": len(ok), "write_failed_for": [i for i, g in enumerate(ok) if not g], "yielded": len(got),
@@ -376,7 +387,7 @@ def run_continue_after_fault(ctx, case, records, written, data, tee, frames):
                               detail=dict(detail, diff=observe.first_diff(exp[: len(got)], got)))
             elif len(got) < must_have:
                 ctx.violation(None, "continue after a failed frame write: complete records written before the failure are skipped", detail=dict(detail, must_have=must_have))
-        ctx.nontrivial("wcont", case["s"], idx)
+        ctx.nontrivial("wcont", case["s"], idx, fmode)
 
 
 def _strip_known(written, decoded):
